@@ -2807,12 +2807,21 @@ func scenTransferTargetCampaignsLater(e *engineA) error {
 	e.sleepHB(1, 2)
 	x := e.others(l)[0]
 	e.rc.emit(&ev.Rec{K: "fault", Op: "transfer-target-mute-then-campaigns-again-later", Nid: x.nid})
-	for _, o := range e.cl.liveNodes() {
-		if o != x {
-			e.net.Cut(x.label, o.label, true) // x hears, nobody hears x
+	// the moment x has handled the timeout-now request it falls silent: its
+	// answer to the leader and the vote requests it is about to send are held
+	var muted int32
+	xdir := x.dir
+	e.rc.setOnNodeEvent(func(dir string, r *ev.Rec) {
+		if dir == xdir && r.K == "rpc" && r.RPC == "timeoutNow" && atomic.CompareAndSwapInt32(&muted, 0, 1) {
+			for _, o := range e.cl.liveNodes() {
+				if o != x {
+					e.net.Cut(x.label, o.label, true)
+				}
+			}
 		}
-	}
+	})
 	e.cl.transfer(l, x.nid, 6*e.hb())
+	e.rc.setOnNodeEvent(nil)
 	e.isolate(x, true)
 	if cur := e.cl.leader(); cur != nil {
 		for i := 0; i < 3; i++ {
